@@ -153,7 +153,8 @@ Definition finish (s : state) : sres :=
 Definition count_panicked (c : list frame) : nat :=
   length (filter (fun fr => status_eqb (fstat fr) Panicked) c).
 
-(* nextCall, case recovered: drop from vm.panic until as many are left as there are panicked frames *)
+(* nextCall, case recovered (the deferred call that recovered has returned):
+   drop from vm.panic until as many are left as there are panicked frames *)
 Definition trim (s : state) : state :=
   set_chain s (skipn (length (schain s) - count_panicked (scalls s)) (schain s)).
 
@@ -217,13 +218,17 @@ Definition step_next (s : state) (i : nat) : sres :=
               after_switch s1 call (S i)
           end
       | Returned | Recovered =>
-          match prev_deferred (scalls s) i with
+          (* a recovered frame: the deferred call that recovered has returned, the
+             recovered panic leaves the chain and the local copy of the frame
+             becomes a returned one, before the next deferred call is looked for *)
+          let rec := status_eqb (fstat call) Recovered in
+          let s0 := if rec then trim s else s in
+          let call' := if rec then set_status call Returned else call in
+          match prev_deferred (scalls s0) i with
           | Some (j, prev) =>
-              let s1 := set_calls s (set_nth (scalls s) j call) in
+              let s1 := set_calls s0 (set_nth (scalls s0) j call') in
               after_switch s1 prev i
-          | None =>
-              let s1 := if status_eqb (fstat call) Recovered then trim s else s in
-              Next (set_mode s1 (MNext i))
+          | None => Next (set_mode s0 (MNext i))
           end
       | Panicked =>
           match find_deferred_below (scalls s) i with
